@@ -111,6 +111,12 @@ func (c *crashFile) WriteAt(b []byte, off int64) (int, error) {
 			die()
 		}
 	}
+	if n == c.p.at && c.p.kind == "ioerr" {
+		// the disk refuses this write (ENOSPC); the client lives on for a few persistence intervals, then the process dies
+		fmt.Printf("CRASHPOINT ioerr write#%d\n", n)
+		go func() { time.Sleep(120 * time.Millisecond); die() }()
+		return 0, syscall.ENOSPC
+	}
 	k, err := c.f.WriteAt(b, off)
 	if n == c.p.at && c.p.kind == "exit" {
 		fmt.Printf("CRASHPOINT exit write#%d\n", n)
@@ -125,22 +131,28 @@ func childConfig(dir string, c *torrent.Config) {
 	c.DataDirIncludesTorrentID = true
 }
 
+// installCrashHook: in-code crash point, the process dies at the at-th hit of the named point of rain's own code
+func installCrashHook(kind string, at int64) {
+	pt := os.Getenv("C05_POINT")
+	if kind != "hook" || pt == "" {
+		return
+	}
+	var hits atomic.Int64
+	verifhook.Set(func(name string) {
+		if name == pt && hits.Add(1) == at {
+			fmt.Printf("CRASHPOINT hook %s#%d\n", pt, at)
+			die()
+		}
+	})
+}
+
 // leech: download until the crash point (or completion)
 func leech() {
 	dir := os.Getenv("C05_DIR")
 	kind, at := "none", int64(0)
 	fmt.Sscanf(os.Getenv("C05_CRASH"), "%s %d", &kind, &at)
 	prov := &crashProvider{root: filepath.Join(dir, "data"), kind: kind, at: at}
-	if pt := os.Getenv("C05_POINT"); kind == "hook" && pt != "" {
-		// in-code crash point: the process dies at the at-th hit of the named point of rain's own code
-		var hits atomic.Int64
-		verifhook.Set(func(name string) {
-			if name == pt && hits.Add(1) == at {
-				fmt.Printf("CRASHPOINT hook %s#%d\n", pt, at)
-				die()
-			}
-		})
-	}
+	installCrashHook(kind, at)
 	cfg := torrent.DefaultConfig
 	_ = cfg
 	s, _, err := newSession(dir, prov)
@@ -208,6 +220,9 @@ func newSession(dir string, prov storage.Provider) (*torrent.Session, torrent.Co
 func restart() {
 	dir := os.Getenv("C05_DIR")
 	prov := &crashProvider{root: filepath.Join(dir, "data"), kind: "none"}
+	kind, at := "none", int64(0)
+	fmt.Sscanf(os.Getenv("C05_CRASH"), "%s %d", &kind, &at)
+	installCrashHook(kind, at)
 	s, cfg, err := newSession(dir, prov)
 	if err != nil {
 		fmt.Println("ERROR session", err)
@@ -442,7 +457,7 @@ func runScenario(sc scenario) {
 	env := []string{"C05_TORRENT=" + tpath, "C05_SEEDER=" + ln.Addr().String(), "C05_HIST=" + sc.hist, "C05_HOST=" + host, fmt.Sprintf("C05_PORTS=%d", pb)}
 	var wrap []string
 	switch sc.kind {
-	case "entry", "partial", "exit":
+	case "entry", "partial", "exit", "ioerr":
 		env = append(env, fmt.Sprintf("C05_CRASH=%s %d", sc.kind, sc.at))
 	case "hook":
 		env = append(env, fmt.Sprintf("C05_CRASH=hook %d", sc.at), "C05_POINT="+strings.TrimPrefix(sc.point, ":"))
@@ -629,6 +644,55 @@ func runScenario(sc scenario) {
 			run.Count("restarts_with_missing_files_checked", 1)
 		}
 	}
+	// (4) the process dies again while the restarted client re-checks files it found missing: delete another file,
+	// restart, die right after the verifier has been started (the allocator has re-created the file by then), restart
+	if len(l.Files) > 1 && sc.k%3 != 1 {
+		other := len(l.Files) - 1
+		if sc.k%3 == 2 {
+			other = 0
+		}
+		os.Remove(filepath.Join(dir, "data", tid, filepath.FromSlash(l.JoinedPath(other))))
+		cmd2, out2, _ := spawn("restart", dir, []string{"C05_HOST=" + host, fmt.Sprintf("C05_PORTS=%d", pb), "C05_CRASH=hook 1", "C05_POINT=torrent.startVerifier"}, nil)
+		if cmd2 != nil {
+			died := make(chan bool, 1)
+			go func() {
+				hit := false
+				for out2.Scan() {
+					if strings.HasPrefix(out2.Text(), "CRASHPOINT") {
+						hit = true
+					}
+				}
+				died <- hit
+			}()
+			hit := false
+			select {
+			case hit = <-died:
+			case <-time.After(8 * time.Second):
+			}
+			killGroup(cmd2)
+			cmd2.Wait()
+			if hit {
+				run.Count("second_deaths_during_recheck", 1)
+				disk3, _ := diskTruth(filepath.Join(dir, "data"), l, info)
+				claims3, status3, statHave3, ok3, note3 := readClaims(sc, dir, ih, host, pb, log)
+				if !ok3 {
+					run.Inconclusive(label + ": after second death: " + note3)
+					return
+				}
+				if claims3 != nil {
+					if x := excess(claims3, disk3); len(x) > 0 {
+						bad("missing-file-trusted:after-death-during-recheck", "file %d was deleted, the restarted client re-created it and died while re-checking (at torrent.startVerifier); after the next restart the client (status %s) announces pieces %v that are not on disk: the stale resume bitfield is trusted because no file is missing any more", other, status3, x)
+						return
+					}
+					if statHave3 > count(disk3) {
+						bad("missing-file-trusted:after-death-during-recheck:stats", "file %d deleted, death during the re-check; Stats() then reports %d pieces, %d are on disk", other, statHave3, count(disk3))
+						return
+					}
+					run.Count("restarts_after_second_death_checked", 1)
+				}
+			}
+		}
+	}
 	run.Distinct(fmt.Sprintf("%s%s|%s|%d|%d|%d", sc.kind, sc.point, sc.hist, sc.at, count(dbBits), count(disk)))
 	if sc.k%15 == 1 {
 		run.Sample(map[string]any{"case": label, "db_claims": count(dbBits), "disk_pieces": count(disk), "restart_status": status, "restart_claims": count(claims), "died": !finished})
@@ -673,7 +737,7 @@ func main() {
 		return
 	}
 	run = vx.Begin("C05", "fault_enumeration",
-		"real process deaths: a leecher child on rain's own file storage (counting wrapper) is killed with SIGKILL at the k-th storage write (before / after half of it / after it), at the k-th hit of a named point inside rain's own code (build tag verif: after the hash check before the write, after the write before its result is reported, after the bit is set, before/after every resume-record update and periodic stats transaction, after a verification's bitfield is installed), at a drawn instant, or at the N-th pwrite64 / fdatasync on the resume database (strace injection), over histories plain / stop+start / verify and 3 layouts (single file, multi-file, multi-file with odd piece length), ResumeWriteInterval 5 ms. After each death: bbolt opens + tx.Check + record readable and equal to the added torrent; database bitfield subset of the pieces whose bytes on disk hash correctly; a second child restarts the client and a reference peer reads its bitfield/have frames: subset of disk truth, also with the first / last / all files deleted before the restart; every data file must be open O_SYNC (/proc/self/fdinfo). distinct = distinct (crash kind, history, point, database pieces, disk pieces)")
+		"real process deaths: a leecher child on rain's own file storage (counting wrapper) is killed with SIGKILL at the k-th storage write (before / after half of it / after it; or that write fails with ENOSPC and the process dies 120 ms later), at the k-th hit of a named point inside rain's own code (build tag verif: after the hash check before the write, after the write before its result is reported, after the bit is set, before/after every resume-record update and periodic stats transaction, after a verification's bitfield is installed), at a drawn instant, or at the N-th pwrite64 / fdatasync on the resume database (strace injection), over histories plain / stop+start / verify and 3 layouts (single file, multi-file, multi-file with odd piece length), ResumeWriteInterval 5 ms. After each death: bbolt opens + tx.Check + record readable and equal to the added torrent; database bitfield subset of the pieces whose bytes on disk hash correctly; a second child restarts the client and a reference peer reads its bitfield/have frames: subset of disk truth, also with the first / last / all files deleted before the restart; every data file must be open O_SYNC (/proc/self/fdinfo). distinct = distinct (crash kind, history, point, database pieces, disk pieces)")
 	vx.StartCanary()
 	layouts := []*gen.Layout{
 		{Name: "single", PieceLen: 32768, Seed: 11, Single: true, Files: []gen.FileSpec{{Length: 420000}}},
@@ -704,6 +768,8 @@ func main() {
 			add("strace-sync", 2+r.Intn(20), "plain", l)
 			add("exit", 3+r.Intn(10), "stopstart", l)
 			add("partial", 3+r.Intn(10), "verify", l)
+			add("ioerr", 1+r.Intn(4), "plain", l)
+			add("ioerr", 5+r.Intn(8), "plain", l)
 			for pi, pt := range points {
 				h := []string{"plain", "stopstart", "verify"}[(pi+li)%3]
 				if pt == "torrent.verificationDone.bitfieldSet" {
@@ -718,7 +784,7 @@ func main() {
 		for _, l := range layouts {
 			for _, h := range []string{"plain", "stopstart", "verify"} {
 				for at := 1; at <= 24; at++ { // the histories make 13-25 storage writes
-					for _, kd := range []string{"entry", "partial", "exit"} {
+					for _, kd := range []string{"entry", "partial", "exit", "ioerr"} {
 						add(kd, at, h, l)
 					}
 				}
